@@ -894,7 +894,7 @@ func genExpr(t *rapid.T, doc interface{}, f frag) string {
 	return renderRandom(t, lex)
 }
 
-var wsChoices = []string{"", "", " ", " ", "  ", "\t", "\n", "\r\n"}
+var wsChoices = []string{"", "", " ", " ", "  ", "\t", "\n", "\r\n", "\r", "\r ", " \r\t", "\n\r"}
 
 func renderRandom(t *rapid.T, lex []string) string {
 	switch uni(t, 4, "render") {
